@@ -53,7 +53,27 @@ def getOptNat (j : Json) (k : String) : Except String (Option Nat) :=
   | .ok v => do pure (some (← v.getNat?))
   | .error _ => pure none
 
-def evToJson : SubjReplay.EvR → Json
+def ractionOfJson (j : Json) : Except String (SubjReplay.RAction Val) :=
+  match j with
+  | .arr #[.str "next", v] => do pure (.emit (.next (← valOfJson v)))
+  | .arr #[.str "error", .str e] => pure (.emit (.error e))
+  | .arr #[.str "completed"] => pure (.emit .completed)
+  | _ => do pure (.base (← actionOfJson j))
+
+structure RObsSpec where
+  err : Bool
+  react : List (Nat × List (SubjReplay.RAction Val))
+
+def robsOfJson (j : Json) : Except String RObsSpec := do
+  let err ← getBool j "err"
+  let rs ← (← getArr j "react").mapM fun p =>
+    match p with
+    | .arr #[n, .arr acts] => do pure ((← n.getNat?), (← acts.toList.mapM ractionOfJson))
+    | _ => throw "bad react entry"
+  pure { err, react := rs }
+
+def evToJson : SubjReplay.EvR Val → Json
+  | .emit i now n => Json.arr #[.str "emit", .num (JsonNumber.fromNat i), .num (JsonNumber.fromNat now), notifToJson n]
   | .call k now nobs => Json.arr #[.str "call", .num (JsonNumber.fromNat k), .num (JsonNumber.fromNat now), .num (JsonNumber.fromNat nobs)]
   | .sub j now => Json.arr #[.str "sub", .num (JsonNumber.fromNat j), .num (JsonNumber.fromNat now)]
   | .unsub j => Json.arr #[.str "unsub", .num (JsonNumber.fromNat j)]
@@ -87,15 +107,19 @@ def handle (op : String) (j : Json) : Except String Json := do
                       ("nobs", Json.arr ((runObsCounts cfg 100000 (init cfg initial) calls).map fun n => Json.num (JsonNumber.fromNat n)).toArray),
                       ("oof", .bool st.oof)])
   | "replay" =>
-    let os ← (← getArr j "observers").mapM obsOfJson
+    let os ← (← getArr j "observers").mapM robsOfJson
     let calls ← (← getArr j "calls").mapM fun p =>
       match p with
       | .arr #[t, c] => do pure ((← t.getNat?), (← callOfJson c))
       | _ => throw "bad timed call"
     let buffer ← getOptNat j "buffer"
     let window ← getOptNat j "window"
-    let c0 := cfgOf Kind.subject os
-    let cfg : SubjReplay.Cfg := { bufferSize := buffer, window := window, hasErr := c0.hasErr, react := c0.react }
+    let cfg : SubjReplay.Cfg Val :=
+      { bufferSize := buffer, window := window
+        hasErr := fun i => match os[i]? with | some o => o.err | none => true
+        react := fun i k => match os[i]? with
+          | some o => (match o.react.find? (fun p => p.1 == k) with | some p => p.2 | none => [])
+          | none => [] }
     let st := SubjReplay.run cfg 1000000 calls
     let logs := (List.range os.length).map fun i =>
       Json.arr (((st.log i).map fun (t, n) => Json.arr #[.num (JsonNumber.fromNat t), notifToJson n]).toArray)
